@@ -123,10 +123,30 @@ class Program:
             absorb(ctx, self.func_module[fn])
         return self.insts
 
+    def overload_hazard(self):
+        """M in 'overload' mode gives all specialisations of a function the same alias. If their parameter types at one
+        position are instantiated Kombinationen of different arity, the pinned parser crashes while trying the candidates
+        (UnifyGenericType indexes the shorter argument list) - reported separately, avoided here by renaming."""
+        for fn, sigs in self.insts.items():
+            f = self.funcs[fn]
+            for pn, pt, ref in f.params:
+                ar = set()
+                for sig in sigs:
+                    t = subst(pt, dict(sig))
+                    while t[0] == 'l':
+                        t = t[1]
+                    if t[0] == 'g':
+                        ar.add(len(t[2]))
+                if len(ar) > 1:
+                    return True
+        return False
+
     # ---------------- rendering
     def render(self, mode):
         if self.insts is None:
             self.close()
+            if self.spec_mode == 'overload' and self.overload_hazard():
+                self.spec_mode = 'rename'
         lang = Lang(self.structs, mono=(self.mono and mode == 'M'))
         self._ginsts = []
         lang.note_ginst = lambda t: self._collect_ginsts(lang, t)
